@@ -14,7 +14,7 @@ from ..prop import Prop
 from ..ref import broadcast as rb
 from ..selftest import broadcast_captures
 
-CLASSES = ["valid", "valid", "valid", "valid", "repeat", "foreign", "truncated", "flip_magic", "flip_model",
+CLASSES = ["valid", "valid", "valid", "valid", "repeat", "foreign", "truncated", "extended", "flip_magic", "flip_model",
            "flip_field", "unknown_model", "undecodable", "empty"]
 
 
@@ -86,7 +86,9 @@ class C07(Prop):
         flip_pos, flip_bit = 74 + r.randrange(2), 1 << r.randrange(8)
         code = bytearray(bytes.fromhex(rb.MODELS[model][0]))
         code[flip_pos - 74] ^= flip_bit
+        n_ext = r.choice([1, 2, 3, 4, 5, 9, 12, 40, 165])
         undecided = (cls in ("flip_field", "undecodable")
+                     or (cls == "extended" and (rb.LENGTHS[rb.MODELS[model][2]] + n_ext) in (165, 168, 159))
                      or (cls == "truncated" and (rb.LENGTHS[rb.MODELS[model][2]] - n_cut) in (165, 168, 159))
                      or (cls == "flip_model" and bytes(code) in rb.CODE_TO_MODEL))
         tag = r.choice(unspec_pool) if undecided else r.choice(pool)
@@ -98,6 +100,10 @@ class C07(Prop):
             cut = data[:-n_cut]
             # cut down to another family's length the gate still passes: delivery is then unspecified
             return cut, ("UNSPEC" if rb.gate(cut) else "INVALID"), tag, d
+        if cls == "extended":
+            # a valid broadcast with trailing bytes (or two glued together) is not a broadcast
+            longer = data + (data[:n_ext] if n_ext == 165 else r.randbytes(n_ext))
+            return longer, ("UNSPEC" if rb.gate(longer) else "INVALID"), tag, d
         b = bytearray(data)
         if cls == "flip_magic":
             b[r.randrange(2)] ^= 1 << r.randrange(8)
@@ -130,8 +136,15 @@ class C07(Prop):
         raise KeyError(cls)
 
     async def run_case(self, case, acc, ctx):
+        from ..ref import clock
+
         i = case["i"]
         r = env.rng("C07", case["seed"], i)
+        self.vnow = getattr(self, "vnow", 1_795_000_000.0) + r.choice([0.3, 9, 61, 3700, 90000, -45, -7200])
+        with clock.virtual_time(self.vnow):      # the wall clock moves between histories (a minute, hours, a day, backwards)
+            await self._history(case, acc, ctx, i, r)
+
+    async def _history(self, case, acc, ctx, i, r):
         nports = 1 + env.sig("nports", i) % 4
         use_defaults = i % 5 == 0 and ctx["shard"] == 0 and all(udp.can_bind(p) for p in (20002, 10002, 20003, 10003))
         if use_defaults:
@@ -154,6 +167,18 @@ class C07(Prop):
             log.raise_on = None
         bridge = self.Bridge(log.callback) if use_defaults else self.Bridge(log.callback, ports)
         await bridge.start()
+        # somebody else in the process tries to listen on the same ports with a callback of their own: either that fails
+        # (address in use) or, if it is allowed, the first bridge must still get every broadcast sent to its ports
+        stolen = []
+        twin = None
+        if i % 3 == 0:
+            twin = self.Bridge(stolen.append, list(ports))
+            try:
+                await twin.start()
+                acc.count("second_bridge_on_the_same_ports_started")
+            except OSError:
+                acc.count("second_bridge_on_the_same_ports_refused")
+                twin = None
         pools = {p: [self._next_tag() for _ in range(3)] for p in ports}
         unspec_pools = {p: [self._next_tag() for _ in range(2)] for p in ports}
         try:
@@ -192,6 +217,11 @@ class C07(Prop):
                         break
         finally:
             log.raise_on = None
+            if twin is not None:
+                try:
+                    await twin.stop()
+                except Exception:
+                    pass
             await bridge.stop()
             await asyncio.sleep(0)
             await asyncio.sleep(0)
